@@ -284,6 +284,15 @@ static int ex_search(char **pat)
 	return row >= 0 && row < lbuf_len(xb) ? row : -1;
 }
 
+#define NUMMAX		(1 << 29)	/* numbers in addresses saturate here */
+
+/* atoi() that saturates instead of wrapping around */
+static int ex_atoi(char *s)
+{
+	long n = strtol(s, NULL, 10);
+	return n < -NUMMAX ? -NUMMAX : (n > NUMMAX ? NUMMAX : n);
+}
+
 static int ex_lineno(char **num)
 {
 	int n = xrow;
@@ -308,13 +317,14 @@ static int ex_lineno(char **num)
 		break;
 	default:
 		if (isdigit((unsigned char) **num)) {
-			n = atoi(*num) - 1;
+			n = ex_atoi(*num) - 1;
 			while (isdigit((unsigned char) **num))
 				++*num;
 		}
 	}
 	while (**num == '-' || **num == '+') {
-		n += atoi((*num)++);
+		n += ex_atoi((*num)++);
+		n = MAX(-NUMMAX, MIN(n, NUMMAX));
 		while (isdigit((unsigned char) **num))
 			(*num)++;
 	}
@@ -422,7 +432,7 @@ static int ec_buffer(char *loc, char *cmd, char *arg, char *txt)
 		/* reassign buffer ids */
 		bufs_number();
 	} else {
-		int id = arg[0] ? atoi(arg) : 0;
+		int id = arg[0] ? ex_atoi(arg) : 0;
 		int idx = -1;
 		/* switch to the given buffer */
 		if (isdigit((unsigned char) arg[0])) {	/* buffer id given */
